@@ -541,8 +541,23 @@ def copy_siblings(ctx, res, only):
                               f"does not construct a new {cls.name}"):
                 continue
             c = calls[0]
+            _ldefs = {}
+            for a_ in ast.walk(fn):
+                if isinstance(a_, ast.Assign) and len(a_.targets) == 1 \
+                        and isinstance(a_.targets[0], ast.Name):
+                    _ldefs.setdefault(a_.targets[0].id, []).append(a_.value)
+
+            def _rl(e):
+                """a name with a single local definition stands for it"""
+                for _ in range(3):
+                    if isinstance(e, ast.Name) and len(
+                            _ldefs.get(e.id, [])) == 1:
+                        e = _ldefs[e.id][0]
+                    else:
+                        break
+                return e
             if is_obj:
-                args = [norm(a) for a in c.args]
+                args = [norm(_rl(a)) for a in c.args]
                 res.oblige(len(args) == 4 and args[0] == f"{selfn}.trait"
                            and args[1] == "None" and args[2] == f"{selfn}.name",
                            key + ":args", mod.loc(c),
@@ -555,13 +570,14 @@ def copy_siblings(ctx, res, only):
                 kws = {k.arg: k.value for k in c.keywords}
                 for vname in validators:
                     want = f"copy.deepcopy({selfn}.{vname}, {memon})"
-                    got = norm(kws[vname]) if vname in kws else None
+                    got = norm(_rl(kws[vname])) if vname in kws else None
                     res.oblige(got in (want, f"{selfn}.{vname}"),
                                key + f":{vname}", mod.loc(c),
                                f"{vname}= is `{got}`; the copy must keep "
                                f"validating with (a copy of) "
                                f"{selfn}.{vname}")
                 nv = kws.get("notifiers")
+                nv = _rl(nv) if nv is not None else None
                 res.oblige(nv is None or norm(nv) in ("[]", "None"),
                            key + ":notifiers", mod.loc(c),
                            "notifiers are transient and must not be copied")
